@@ -1,9 +1,69 @@
-(* C10 — property theorems (statements only; proofs live in Acme.C10.Proofs). *)
-From Coq Require Import ZArith List.
-From Acme.C10 Require Import DbcDoc BusModel Import Bits Proofs.
+(* C10 — property theorems (statements only; proofs live in Acme.C10.Proofs / BitsProofs).
+   Model: Acme.C10.{DbcDoc,BusModel,Import,Bits}.  `import : doc -> result bus`.
+   Partial: import_signal_faithful_partial covers messages without multiplexor switch and, for
+   signals with a value table, the kind only; the full statement is
+   Acme.C10.Proofs.import_signal_faithful_full_statement. *)
+From Coq Require Import String ZArith List.
+From Acme.C10 Require Import DbcDoc BusModel Import Bits BitsProofs Proofs.
+Import ListNotations.
 Open Scope Z_scope.
 
+(* importer.getSignalStartBit and exporter.getStartBit are mutually inverse *)
 Theorem start_bit_inverse :
   forall o p, 0 <= p -> pos_of_dbc o (dbc_of_pos o p) = p /\ dbc_of_pos o (pos_of_dbc o p) = p.
 Proof. exact Proofs.start_bit_inverse. Qed.
 Print Assumptions start_bit_inverse.
+
+(* the library's raw value of a signal at the imported position = the raw value an independent
+   interpreter of the DBC Intel/Motorola numbering reads at the file's start bit *)
+Theorem import_decode_dbc : forall ds data,
+  0 <= ds_start ds -> 1 <= ds_size ds -> get_start_bit ds + ds_size ds <= 64 ->
+  d08_excluded (ds_order ds) (get_start_bit ds) (ds_size ds) = false ->
+  go_raw (ds_order ds) (get_start_bit ds) (ds_size ds) data
+  = dbc_raw (ds_order ds) (ds_start ds) (ds_size ds) data.
+Proof. exact Proofs.import_decode_dbc. Qed.
+Print Assumptions import_decode_dbc.
+
+(* the excluded placements (big endian, one byte, asymmetric: D08) really disagree *)
+Theorem import_decode_dbc_refuted : exists o pos size data,
+  0 <= pos /\ 1 <= size /\ pos + size <= 64 /\ d08_excluded o pos size = true /\
+  go_raw o pos size data <> dbc_raw o (dbc_of_pos o pos) size data.
+Proof. exact BitsProofs.go_raw_d08_refuted. Qed.
+Print Assumptions import_decode_dbc_refuted.
+
+(* exactly the file's nodes in order, plus the placeholder sender when a message names none *)
+Theorem import_nodes : forall d b, import d = Ok b ->
+  map n_name (b_nodes b) =
+  filter not_dummy (d_nodes d)
+  ++ (if existsb (fun dm => String.eqb (dm_tx dm) dummy_node) (d_messages d) then [dummy_node] else []).
+Proof. exact Proofs.import_nodes_thm. Qed.
+Print Assumptions import_nodes.
+
+(* message by message: CAN-ID, name, byte size, sender, receivers, byte order *)
+Theorem import_messages : forall d b, import d = Ok b ->
+  map msg_head (b_messages b) = map dmsg_head (d_messages d).
+Proof. exact Proofs.import_messages_heads. Qed.
+Print Assumptions import_messages.
+
+(* ... where the receivers are the union of the signals' receivers (placeholder excluded) *)
+Theorem import_receivers_union : forall dm r,
+  In r (recs_of dm) <-> r <> dummy_node /\ exists s, In s (dm_signals dm) /\ In r (ds_receivers s).
+Proof. exact Proofs.recs_of_spec. Qed.
+Print Assumptions import_receivers_union.
+
+(* signals of messages without multiplexor switch: name, position, comment, and the file's
+   signedness / factor / offset / minimum / maximum / unit, or kind enum with a value table *)
+Theorem import_signal_faithful_partial : forall d b, import d = Ok b ->
+  exists se,
+    (forall k, (exists e, lookup key_eqb k se = Some e) <-> has_valenc d k) /\
+    Forall2 (msg_faithful (doc_env d se)) (d_messages d) (b_messages b).
+Proof. exact Proofs.import_signal_faithful. Qed.
+Print Assumptions import_signal_faithful_partial.
+
+(* invariants over the plain model: node names and CAN-IDs unique, sender and receivers are nodes
+   of the bus, at most 8 bytes *)
+Theorem import_valid : forall d b, import d = Ok b ->
+  NoDup (map n_name (b_nodes b)) /\ NoDup (map m_canid (b_messages b)) /\
+  Forall (msg_valid (map n_name (b_nodes b))) (b_messages b).
+Proof. exact Proofs.import_valid. Qed.
+Print Assumptions import_valid.
